@@ -99,6 +99,12 @@ func (f *FuncVC) mapLen(st *State, m *Val) string {
 		return "0"
 	}
 	t := sel(ln, m.T)
+	if !f.mentionsBound(m.T) && f.noFacts == 0 {
+		// an empty map has no keys
+		dom, _, ksort, _ := f.mapHeaps(st, m, mt)
+		q := f.sc.fresh("k")
+		f.fact(st, "(=> (= "+t+" 0) (forall (("+q+" "+ksort+")) (! (not (select (select "+dom+" "+m.T+") "+q+")) :pattern ((select (select "+dom+" "+m.T+") "+q+")))))")
+	}
 	if f.pure == 0 {
 		t = f.sc.define("mlen", "Int", t)
 		f.fact(st, and(cmp(">=", t, "0"), cmp("<=", t, maxElems), implies(eq(m.T, "0"), eq(t, "0"))))
